@@ -448,6 +448,11 @@ impl Gen<'_> {
                 let mut tags: Vec<usize> = (0..nt).collect();
                 self.rng.shuffle(&mut tags);
                 tags.truncate(k);
+                // a tag list denotes a set of tags: one list in six names one of its tags a second time
+                if k > 0 && self.rng.chance(1, 6) {
+                    let again = tags[self.rng.usize_below(k)];
+                    tags.insert(self.rng.urange(0, k), again);
+                }
                 self.push(Step::AddFileTagged { id: self.next_id, key, size, prio, tags });
             }
             91 if nf > 0 && matches!(self.kind, Kind::Download { .. }) => {
@@ -894,6 +899,11 @@ fn run_program(rc: &mut RunCtx, kind: Kind, steps: &[Step], rng: &mut Rng) {
     let mut resolved_removal: Option<Vec<usize>> = None;
     let mut other_outcome = false;
     for (si, s) in steps.iter().enumerate() {
+        if let Step::AddFileTagged { tags, .. } = s {
+            if tags.iter().collect::<BTreeSet<_>>().len() < tags.len() {
+                rc.cnt.add("step.add_file_with_tags(list-names-a-tag-more-than-once)", 1);
+            }
+        }
         rc.cnt.add(
             match s {
                 Step::AddTag { .. } => "step.add_tag",
@@ -1482,7 +1492,26 @@ fn run_program(rc: &mut RunCtx, kind: Kind, steps: &[Step], rng: &mut Rng) {
             s.truncate(k);
             subsets.push(s);
         }
+        // a query's tag list denotes a SET of tags: a list that names a tag more than once (a caller that assembles
+        // the list from several sources) denotes the same set as the list without the repetition. Every tag alone
+        // named twice (first 8 tags), and 12 of the lists above with one to three of their names repeated at
+        // random places.
+        let plain = subsets.len();
+        for t in 0..nt.min(8) {
+            subsets.push(vec![t, t]);
+        }
+        for _ in 0..12 {
+            let mut s = subsets[rng.usize_below(plain)].clone();
+            for _ in 0..rng.urange(1, 3) {
+                let again = s[rng.usize_below(s.len())];
+                s.insert(rng.urange(0, s.len()), again);
+            }
+            subsets.push(s);
+        }
     }
+    // the class of a query list is part of the signature: lists of distinct names / lists that repeat a name
+    let repeats = |s: &[usize]| s.iter().collect::<BTreeSet<_>>().len() < s.len();
+    let lbl = |q: &str, s: &[usize]| if repeats(s) { format!("{q}[list-names-a-tag-more-than-once]") } else { q.to_string() };
     let all_of = |s: &[usize]| -> Vec<usize> { (0..n).filter(|&i| s.iter().all(|&t| member[t][i])).collect() };
     let any_of = |s: &[usize]| -> Vec<usize> { (0..n).filter(|&i| s.iter().any(|&t| member[t][i])).collect() };
     let size_sum = |v: &[usize]| -> u64 { v.iter().map(|&i| model.files[i].size).sum() };
@@ -1519,21 +1548,24 @@ fn run_program(rc: &mut RunCtx, kind: Kind, steps: &[Step], rng: &mut Rng) {
                 let got: Vec<(usize, &[u8; 16])> = m.get_files_for_tags(&names).into_iter().map(|(i, e)| (i, e.content_key.as_bytes())).collect();
                 let want = all_of(s);
                 if idx_of(&got) != want || !keys_ok(&got) {
-                    bad("get_files_for_tags(all-of)", json!(idx_of(&got)), json!(want), json!({"tags": names}));
+                    bad(&lbl("get_files_for_tags(all-of)", s), json!(idx_of(&got)), json!(want), json!({"tags": names}));
                     return;
                 }
                 let got_any: Vec<(usize, &[u8; 16])> = m.get_files_for_any_tag(&names).into_iter().map(|(i, e)| (i, e.content_key.as_bytes())).collect();
                 let want_any = any_of(s);
                 if idx_of(&got_any) != want_any || !keys_ok(&got_any) {
-                    bad("get_files_for_any_tag(any-of)", json!(idx_of(&got_any)), json!(want_any), json!({"tags": names}));
+                    bad(&lbl("get_files_for_any_tag(any-of)", s), json!(idx_of(&got_any)), json!(want_any), json!({"tags": names}));
                     return;
                 }
                 let sz = m.calculate_install_size(&names);
                 if sz != size_sum(&want) {
-                    bad("calculate_install_size", json!(sz), json!(size_sum(&want)), json!({"tags": names}));
+                    bad(&lbl("calculate_install_size", s), json!(sz), json!(size_sum(&want)), json!({"tags": names}));
                     return;
                 }
                 qcount += 3;
+                if repeats(s) {
+                    rc.cnt.add("query.tag_lists_naming_a_tag_more_than_once", 1);
+                }
             }
             let total: u64 = model.files.iter().map(|f| f.size).sum();
             if m.total_install_size() != total {
@@ -1677,15 +1709,18 @@ fn run_program(rc: &mut RunCtx, kind: Kind, steps: &[Step], rng: &mut Rng) {
                 let got: Vec<(usize, &[u8; 16])> = m.entries_by_tags(&names).into_iter().map(|(i, e)| (i, e.encoding_key.as_bytes())).collect();
                 let want = all_of(s);
                 if idx_of(&got) != want || !keys_ok(&got) {
-                    bad("entries_by_tags(all-of)", json!(idx_of(&got)), json!(want), json!({"tags": names}));
+                    bad(&lbl("entries_by_tags(all-of)", s), json!(idx_of(&got)), json!(want), json!({"tags": names}));
                     return;
                 }
                 let sz = m.calculate_size_for_tags(&names);
                 if sz != size_sum(&want) {
-                    bad("calculate_size_for_tags", json!(sz.to_string()), json!(size_sum(&want).to_string()), json!({"tags": names}));
+                    bad(&lbl("calculate_size_for_tags", s), json!(sz.to_string()), json!(size_sum(&want).to_string()), json!({"tags": names}));
                     return;
                 }
                 qcount += 2;
+                if repeats(s) {
+                    rc.cnt.add("query.tag_lists_naming_a_tag_more_than_once", 1);
+                }
             }
             // platform filter: every (Platform tag, Architecture tag) pair
             for (a, ta) in model.tags.iter().enumerate() {
@@ -2250,7 +2285,7 @@ fn main() {
         ctx.inconclusive(&format!("tag counts never reached: {missing_t:?}"));
     }
     ctx.set_extra("sweep_coverage", Value::Object(cov_json));
-    for k in ["step.reload(from_manifest)", "step.add_file_with_tags", "step.update_file_key", "step.clear", "query.download_plans", "programs.install-v2", "programs.through_CascFormat_build+parse", "builder_state.download_probes", "builder_state.install_probes", "install.extension_queries", "builder.download_preset_constructors", "step.remove_file", "step.remove_file_by_key(key-listed-more-than-once)", "builder_state.remove_file_by_key(key-listed-more-than-once)_on_a_copy", "programs.with_a_key_listed_more_than_once", "step.remove_tag", "step.dissociate", "programs.with_file_size=2^40-1", "programs.download_with_priority_-128_and_127", "programs.file_count>70", "query.entries_for_platform", "independent_reader.manifests_decoded"] {
+    for k in ["step.reload(from_manifest)", "step.add_file_with_tags", "step.update_file_key", "step.clear", "query.download_plans", "programs.install-v2", "programs.through_CascFormat_build+parse", "builder_state.download_probes", "builder_state.install_probes", "install.extension_queries", "builder.download_preset_constructors", "step.remove_file", "step.remove_file_by_key(key-listed-more-than-once)", "builder_state.remove_file_by_key(key-listed-more-than-once)_on_a_copy", "programs.with_a_key_listed_more_than_once", "step.remove_tag", "step.dissociate", "programs.with_file_size=2^40-1", "programs.download_with_priority_-128_and_127", "programs.file_count>70", "query.entries_for_platform", "query.tag_lists_naming_a_tag_more_than_once", "step.add_file_with_tags(list-names-a-tag-more-than-once)", "independent_reader.manifests_decoded"] {
         if ctx.get_obs(k) == 0 {
             ctx.inconclusive(&format!("situation never reached: {k}"));
         }
